@@ -156,19 +156,57 @@ def o_detect(case):
         _must_reject(frame, framing.flip_bits(frame, pos), f"{kind} {pos}")
         evals = 1
         digs = [digest([case["frame"], pos])] if nt else []
+        if kind == "lower-length":
+            assert len(pos) <= 3 and pos[-1] - pos[0] < 24
         cls = [kind, "in-header" if pos[0] < 24 else ("in-crc" if pos[-1] >= nbits - 24 else "in-payload")]
     return Res(nontrivial=nt, classes=cls, evals=evals, digests=digs)
 
 
+@st.composite
+def nested_prefix_frames(draw, tier):
+    """valid frame whose payload starts with a shorter message's payload followed by that message's own CRC, and whose
+    length differs from the inner length in few bits: damage that lowers the length field turns the prefix into a
+    frame that is valid by itself - the CRC must still be judged over the whole damaged byte string"""
+    inner = draw(st.one_of(gen.unknown_payloads("small"), gen.any_message("small").map(lambda c: bytes.fromhex(c["payload"]))))
+    l = len(inner)
+    cands = [l ^ m for m in ([1 << k for k in range(10)] + [3 << k for k in range(9)] + [7 << k for k in range(8)]) if l + 3 < (l ^ m) <= 1023]
+    if not cands or l > 500:
+        return framing.build_frame(inner)
+    big = tier != "small"
+    L = draw(st.sampled_from(cands if big else [c for c in cands if c <= 300] or cands[:1]))
+    inner_frame = framing.build_frame(inner)
+    fill = draw(st.binary(min_size=L - l - 3, max_size=L - l - 3))
+    return framing.build_frame(inner + inner_frame[-3:] + fill)
+
+
+def inner_length_of(frame):
+    """if the frame's payload starts with a shorter payload + that payload's valid CRC, the shorter length (else None)"""
+    L = len(frame) - 6
+    for m in [1 << k for k in range(10)] + [3 << k for k in range(9)] + [7 << k for k in range(8)]:
+        l = L ^ m
+        if 0 <= l and l + 3 < L:
+            cand = bytes([0xD3, l >> 8, l & 0xFF]) + frame[3 : 3 + l + 3]
+            if framing.crc_div(cand) == 0:
+                return l
+    return None
+
+
 def _frames(tier):
-    return gen.payloads(tier).map(lambda p: framing.build_frame(p))
+    return st.one_of(gen.payloads(tier).map(framing.build_frame), gen.payloads(tier).map(framing.build_frame), nested_prefix_frames(tier))
 
 
 @st.composite
 def s_detect(draw, tier):
     frame = draw(_frames(tier))
     nbits = len(frame) * 8
-    kind = draw(st.sampled_from(["pair", "pair", "odd", "burst", "burst", "single"]))
+    kind = draw(st.sampled_from(["pair", "pair", "odd", "burst", "burst", "single", "lower-length", "lower-length"]))
+    inner = inner_length_of(frame) if kind == "lower-length" else None
+    if kind == "lower-length" and inner is None:
+        kind = "single"
+    if kind == "lower-length":
+        diff = (len(frame) - 6) ^ inner
+        pos = [23 - k for k in range(10) if diff >> k & 1]
+        return {"frame": frame.hex(), "mode": "explicit", "kind": "lower-length", "positions": sorted(pos)}
     if kind == "single":
         pos = [draw(st.integers(0, nbits - 1))]
     elif kind == "pair":
@@ -240,7 +278,7 @@ def s_valoff(draw, tier):
 
 SUBS = [
     Sub("crc_value", o_value, strategy=s_value, enum=e_value, examples=(250, 6000), rule="data length > 6", need={"len1029": 1, "len0": 1}),
-    Sub("detect_patterns", o_detect, strategy=s_detect, examples=(250, 8000), rule="frame length > 6; distinct (frame, positions)", need={"pair": 1, "odd": 1, "burst": 1}),
+    Sub("detect_patterns", o_detect, strategy=s_detect, examples=(250, 8000), rule="frame length > 6; distinct (frame, positions)", need={"pair": 1, "odd": 1, "burst": 1, "lower-length": 1}),
     Sub(
         "detect_sweeps",
         o_detect,
